@@ -477,6 +477,8 @@ struct Judged {
     /// panic location / message class (outcome == "panic")
     panic_loc: String,
     panic_line: String,
+    /// `[ops, mmcs_ops, public_flat_len, private_flat_len]` of the returned circuit (None: no circuit)
+    sig: Option<[usize; 4]>,
 }
 
 const BUILD_STAGES: &[&str] = &["allocate", "verify_circuit", "circuit_build"];
@@ -549,13 +551,15 @@ fn classify(n: &Verdict, c: &Verdict, stage: &str) -> Judged {
         outcome: outcome.to_string(),
         panic_loc,
         panic_line,
+        sig: if c.not_a_proof() || n.not_a_proof() { None } else { vpe4::last_build_sig() },
     }
 }
 
 impl Judged {
     fn to_json(&self) -> Value {
         json!({"native": self.native, "native_tag": self.native_tag, "circuit": self.circuit, "circuit_tag": self.circuit_tag,
-               "stage": self.stage, "outcome": self.outcome, "panic_loc": self.panic_loc, "panic_line": self.panic_line})
+               "stage": self.stage, "outcome": self.outcome, "panic_loc": self.panic_loc, "panic_line": self.panic_line,
+               "circuit_size[ops,mmcs_ops,pub,priv]": self.sig.map(|s| s.to_vec())})
     }
     fn from_json(v: &Value) -> Option<Judged> {
         let s = |k: &str| v[k].as_str().map(|x| x.to_string());
@@ -568,6 +572,10 @@ impl Judged {
             outcome: s("outcome")?,
             panic_loc: s("panic_loc")?,
             panic_line: s("panic_line")?,
+            sig: v["circuit_size[ops,mmcs_ops,pub,priv]"].as_array().and_then(|a| {
+                let x: Vec<usize> = a.iter().filter_map(|y| y.as_u64().map(|z| z as usize)).collect();
+                <[usize; 4]>::try_from(x).ok()
+            }),
         })
     }
     fn dead_worker(how: &str) -> Judged {
@@ -580,6 +588,7 @@ impl Judged {
             outcome: "abort".into(),
             panic_loc: String::new(),
             panic_line: String::new(),
+            sig: None,
         }
     }
 }
@@ -962,6 +971,7 @@ fn main() {
     let by_class: Mutex<BTreeMap<String, BTreeMap<String, u64>>> = Mutex::new(BTreeMap::new());
     let native_panics: Mutex<BTreeMap<String, u64>> = Mutex::new(BTreeMap::new());
     let unjudged_param: Mutex<BTreeMap<String, u64>> = Mutex::new(BTreeMap::new());
+    let smaller: Mutex<BTreeMap<String, u64>> = Mutex::new(BTreeMap::new());
     let samples: Mutex<BTreeMap<String, Vec<Value>>> = Mutex::new(BTreeMap::new());
     let mut per_config = vec![];
     let (mut evaluations, mut nontrivial, mut planned_total, mut skipped_total, mut not_applicable) = (0u64, 0u64, 0u64, 0u64, 0u64);
@@ -980,6 +990,7 @@ fn main() {
             machinery_error(&format!("fixture {}: honest object not accepted natively ({})", fx.name, hn.tag()));
         }
         let (hc, hstage) = fx.circuit_verify_fresh_staged(&fx.honest);
+        let honest_sig = vpe4::last_build_sig();
         // C01's known findings: two shapes whose honest proof the circuit rejects. Clause (a) is
         // still meaningful there; clause (b) cannot fire.
         let honest_note = if hc.accepts() { "accepted by both".to_string() } else { format!("native accepts, circuit {} at `{hstage}` (C01's finding; clause (b) vacuous here)", hc.tag()) };
@@ -1010,6 +1021,12 @@ fn main() {
             *by_class.lock().unwrap().entry(class.clone()).or_default().entry(j.outcome.clone()).or_default() += 1;
             if j.native_tag.starts_with("reject") {
                 nt.fetch_add(1, Ordering::Relaxed);
+                if let (Some(sg), Some(h)) = (j.sig, honest_sig) {
+                    let dims: Vec<&str> = ["ops", "mmcs_ops", "pub", "priv"].iter().zip(sg.iter().zip(h.iter())).filter(|(_, (a, b))| a < b).map(|(n, _)| *n).collect();
+                    if !dims.is_empty() {
+                        *smaller.lock().unwrap().entry(format!("{} | {} | smaller: {}", case.key_class(&fx), j.outcome, dims.join(","))).or_default() += 1;
+                    }
+                }
             }
             if let Some(loc) = j.native_tag.strip_prefix("panic@") {
                 let (file, line) = split_loc(loc);
@@ -1120,6 +1137,7 @@ fn main() {
         "outcomes_by_fault_class": *by_class.lock().unwrap(),
         "native_panics_recorded_not_judged": *native_panics.lock().unwrap(),
         "circuit_ok_native_reject_not_judged(parameter_not_in_circuit_api_or_inconsistent_set)": *unjudged_param.lock().unwrap(),
+        "returned_circuit_smaller_than_honest_while_native_rejects": *smaller.lock().unwrap(),
         "per_config": per_config,
         "samples": samples,
     });
